@@ -58,9 +58,9 @@ def env_model(keys, env, proc):
 
 VERSIONS = ['3', '3.8', '3.8.0', '3.8.1', '3.9', '3.10', '3.0', '4', '2.7', '3.8.0.0', '3.7.2', '0', '3.8.10', '3.11.0', '3.0.1', '3.10.0.2', '2.0.7']
 VERSIONS_ODD = ['3.8a1', '3.8.post1', '3.8.dev1', '1!3.8', '3.8rc2', '3.9.0b1']
-STRVALS = ['a', 'b', 'ab', '', 'linux', 'win32', 'posix', 'nt', 'darwin', 'é', 'a b', 'x86_64', 'Linux', 'aa', 'a\x00', "it's", 'say "hi"']
+STRVALS = ['a', 'b', 'ab', '', 'linux', 'win32', 'posix', 'nt', 'darwin', 'é', 'a b', 'x86_64', 'Linux', 'aa', 'a\x00', "it's", 'say "hi"', 'C:\\dir', "it's C:\\dir", "don't\tpanic"]
 EXTRAS = ['a', 'b', 'c', 'A_b', 'a.b', 'dev', 'x-y']
-BAD_EXTRAS = ['a b', '-a', 'é']
+BAD_EXTRAS = ['a b', '-a', 'é', ' dev', 'dev ', '\tdev', "bob's"]
 VOPS = ['==', '!=', '<', '<=', '>', '>=', '~=']
 SOPS = ['==', '!=', '<', '<=', '>', '>=']
 
@@ -69,6 +69,25 @@ SOPS = ['==', '!=', '<', '<=', '>', '>=']
 BOUNDARY_TEXTS = ["python_version not in ''", "python_version in ''", "python_full_version not in ''", "python_full_version in ' '", "python_version not in '  '",
                   "implementation_version in ''", "python_version in '3.8'", "python_version not in '3.8'", "os_name == ''", "os_name != ''", "'' in os_name", "os_name in ''",
                   "os_name not in ''", "'' not in os_name", "python_full_version >= '0'", "python_full_version < '0'", "python_version == '0'", "extra == 'a' and extra != 'a'"]
+
+
+def op_key_grid(deprecated=False):
+    """one comparison for every key of every kind with every operator it takes, in both operand orders; version keys also against
+    post-release / pre-release / epoch literals and wildcards; `in` lists of one and two"""
+    inv = {'==': '==', '!=': '!=', '<': '>', '<=': '>=', '>': '<', '>=': '<=', '~=': '~='}
+    out = []
+    for key in VERSION_KEYS:
+        for op in VOPS:
+            for lit in ('3.8', '3.8.1', '3.8.post1', '1!3.8', '3.8a1'):
+                out.append("%s %s '%s'" % (key, op, lit))
+            out.append("'3.8.1' %s %s" % (inv[op], key))
+        out += ["%s == '3.8.*'" % key, "%s != '3.8.*'" % key, "%s in '3.8.1'" % key, "%s not in '3.8 3.9.2'" % key]
+    for key in list(STRING_KEYS) + (DEPRECATED if deprecated else []):
+        for op in SOPS:
+            out += ["%s %s 'posix'" % (key, op), "'posix' %s %s" % (inv[op], key)]
+        out += ["%s in 'posix nt'" % key, "%s not in 'posix nt'" % key, "'os' in %s" % key, "'os' not in %s" % key]
+    out += ["extra == 'A_b'", "extra != 'A_b'", "'A_b' == extra", "'A_b' != extra"]
+    return out
 
 
 # shapes the DNF printer / simplifier is sensitive to (rendered and re-parsed by C05; as requirement markers by C08)
@@ -84,7 +103,15 @@ DNF_SHAPES = ["sys_platform == 'linux' or platform_system != 'linux'", "(os_name
               "(implementation_version < '3' and python_full_version >= '3.8' and python_full_version < '3.10') or implementation_version >= '3'",
               "python_version != '3.8' and python_full_version != '3.9.1'", "python_full_version != '3.7' and python_full_version != '3.8.*' and sys_platform == 'linux'",
               "implementation_version != '7.3.9' and (implementation_version < '7.1' or implementation_version > '7.2')", "platform_release != '5.4' and (platform_release < '5.10' or platform_release >= '5.11')",
-              "(os_name <= 'a' and extra == 'x') or os_name > 'a'", "(python_full_version <= '3.8' and extra == 'x') or python_full_version > '3.8'"]
+              "(os_name <= 'a' and extra == 'x') or os_name > 'a'", "(python_full_version <= '3.8' and extra == 'x') or python_full_version > '3.8'",
+              # string ranges bounded on both sides, every combination of closed / open ends, distinct and equal end points
+              "platform_release >= '5.0' and platform_release <= '5.9'", "platform_release > '5.0' and platform_release <= '5.9'", "platform_release >= '5.0' and platform_release < '5.9'",
+              "platform_release > '5.0' and platform_release < '5.9'", "(platform_machine >= 'arm64' and platform_machine <= 'armv8l') or extra == 'cpu'",
+              "'5.9' >= platform_release and '5.0' <= platform_release and os_name == 'posix'", "os_name >= 'a' and os_name <= 'a'", "os_name < 'a' or os_name > 'a'",
+              "python_full_version >= '3.8' and (platform_version < '10' or (platform_version > '11' and platform_version <= '12'))",
+              # values that need the other quote, alone and with characters a debug rendering would escape; arbitrary (invalid) extra names
+              'platform_version == "it\'s C:\\dir"', 'os_name not in "nt\'s\\"', 'platform_version != "don\'t\tpanic"', "os_name == 'C:\\dir'",
+              'extra == "bob\'s"', '"dev\'" != extra', 'os_name == \'nt\' or (extra == "it\'s" and extra == \'dotenv\')', "extra == ' dev' or os_name == 'x'"]
 
 
 def q(rng, s):
